@@ -177,6 +177,34 @@ theorem sign1_bytes_from_fields (m : CoseSign1) (k : Nat) (hk : k + 2 ≤ Cbor.r
 theorem key_bytes_from_fields (key : CoseKey) (k : Nat) (hk : k + 1 ≤ Cbor.recursionLimit) (hw : key.WF) (hn : CoseKey.NF k key) :
     ∃ bs, toVec CoseKey.toValue key = .ok bs ∧ fromSlice CoseKey.fromValue bs = .ok key := key_built_bytes key k hk hw hn
 
+/-- COSE_Mac0, COSE_Encrypt0 and COSE_Sign (any number of signers), and CWT claims sets, likewise. -/
+theorem mac0_bytes_from_fields (m : CoseMac0) (k : Nat) (hk : k + 2 ≤ Cbor.recursionLimit)
+    (hp : ProtectedHeader.WF maxNest m.protected_) (hu : Header.WF maxNest m.unprotected)
+    (hpn : ProtectedHeader.NF m.protected_) (hun : Header.NF k m.unprotected)
+    (hpl : ∀ b, m.payload = some b → b.length < 2 ^ 64) (htg : m.tag.length < 2 ^ 64) :
+    ∃ bs m', toVec CoseMac0.toValue m = .ok bs ∧ fromSlice CoseMac0.fromValue bs = .ok m' ∧
+      ProtectedHeader.erase m'.protected_ = ProtectedHeader.erase m.protected_ ∧ Header.erase m'.unprotected = Header.erase m.unprotected ∧
+      m'.payload = m.payload ∧ m'.tag = m.tag := mac0_built_bytes m k hk hp hu hpn hun hpl htg
+
+theorem encrypt0_bytes_from_fields (m : CoseEncrypt0) (k : Nat) (hk : k + 2 ≤ Cbor.recursionLimit)
+    (hp : ProtectedHeader.WF maxNest m.protected_) (hu : Header.WF maxNest m.unprotected)
+    (hpn : ProtectedHeader.NF m.protected_) (hun : Header.NF k m.unprotected)
+    (hct : ∀ b, m.ciphertext = some b → b.length < 2 ^ 64) :
+    ∃ bs m', toVec CoseEncrypt0.toValue m = .ok bs ∧ fromSlice CoseEncrypt0.fromValue bs = .ok m' ∧
+      ProtectedHeader.erase m'.protected_ = ProtectedHeader.erase m.protected_ ∧ Header.erase m'.unprotected = Header.erase m.unprotected ∧
+      m'.ciphertext = m.ciphertext := encrypt0_built_bytes m k hk hp hu hpn hun hct
+
+theorem sign_bytes_from_fields (m : CoseSign) (k j : Nat) (hk : k + 2 ≤ Cbor.recursionLimit) (hj : j + 2 ≤ Cbor.recursionLimit)
+    (hp : ProtectedHeader.WF maxNest m.protected_) (hu : Header.WF maxNest m.unprotected) (hs : sigsWF maxNest m.signatures)
+    (hpn : ProtectedHeader.NF m.protected_) (hun : Header.NF k m.unprotected) (hsn : sigsNF j m.signatures)
+    (hsl : m.signatures.length < 2 ^ 64) (hpl : ∀ b, m.payload = some b → b.length < 2 ^ 64) :
+    ∃ bs m', toVec CoseSign.toValue m = .ok bs ∧ fromSlice CoseSign.fromValue bs = .ok m' ∧
+      ProtectedHeader.erase m'.protected_ = ProtectedHeader.erase m.protected_ ∧ Header.erase m'.unprotected = Header.erase m.unprotected ∧
+      m'.payload = m.payload ∧ eraseSigs m'.signatures = eraseSigs m.signatures := sign_built_bytes m k j hk hj hp hu hs hpn hun hsn hsl hpl
+
+theorem claims_bytes_from_fields (c : ClaimsSet) (k : Nat) (hk : k + 1 ≤ Cbor.recursionLimit) (hw : c.WF) (hn : ClaimsSet.NF k c) :
+    ∃ bs, toVec ClaimsSet.toValue c = .ok bs ∧ fromSlice ClaimsSet.fromValue bs = .ok c := claims_built_bytes c k hk hw hn
+
 /-- non-vacuity: the header of the earlier example (algorithm, key id, one extra parameter) satisfies the field-level conditions. -/
 example : Header.NF 0 (.mk (some (.assigned Gen.idx_Algorithm_ES256)) [] none [1, 2] [] [] [] [(.int 100, .int 1)]) := by
   refine ⟨⟨?_, by simp, by simp, by simp⟩, ⟨by simp, ?_⟩, by simp [csNF]⟩
@@ -238,5 +266,9 @@ theorem tie_header_is_empty : Coset.Gen.headerFields = Coset.Pinned.headerFields
 #print axioms signature_emits_normal
 #print axioms sign1_bytes_from_fields
 #print axioms key_bytes_from_fields
+#print axioms mac0_bytes_from_fields
+#print axioms encrypt0_bytes_from_fields
+#print axioms sign_bytes_from_fields
+#print axioms claims_bytes_from_fields
 
 end Coset.Props.C11
